@@ -284,10 +284,12 @@ fn reverse_variants(ctx: &mut Ctx, files: &Files, r: &mut Rng) -> Result<(), Fai
     older.secret = op.header.secret;
     let payloads: Vec<Vec<u8>> = op.entries.iter().map(|e| e.encode()).collect();
     // a bogus entry used for partial / stale tails: an append-like entry that must be ignored
+    // it would be observable if replayed: it drops block 0 (or announces a block at `length`)
+    let cur_len = _st.length;
     let bogus = REntry {
-        nodes: vec![(2 * op.header.length + 1000, 3, [7u8; 32])],
+        nodes: vec![],
         upgrade: None,
-        bitfield: Some((false, op.header.length + 500, 1)),
+        bitfield: Some(if cur_len > 0 { (true, 0, cur_len) } else { (false, 0, 1) }),
     }
     .encode();
     let layouts: [(&str, Option<bool>, Option<bool>); 6] = [
@@ -325,7 +327,7 @@ fn reverse_variants(ctx: &mut Ctx, files: &Files, r: &mut Rng) -> Result<(), Fai
             match tail {
                 1 => {
                     // unfinished atomic batch: trailing partial-flagged entries
-                    for _ in 0..(1 + r.below(2)) {
+                    for _ in 0..(1 + r.below(3)) {
                         oplog.extend_from_slice(&make_frame(&bogus, ebit, true));
                     }
                 }
